@@ -452,6 +452,20 @@ func (ts *TermStore) Arith(op Op, x, y *Term) *Term {
 		if y.IsConst() {
 			return ts.Arith(OpAdd, x, ts.BV(w, -y.val))
 		}
+		// (a + c1) - a, a - (a + c2), (a + c1) - (a + c2): offsets from a common symbolic base
+		{
+			xb, xc := x, uint64(0)
+			if x.op == OpAdd && x.a[1].IsConst() {
+				xb, xc = x.a[0], x.a[1].val
+			}
+			yb, yc := y, uint64(0)
+			if y.op == OpAdd && y.a[1].IsConst() {
+				yb, yc = y.a[0], y.a[1].val
+			}
+			if xb == yb {
+				return ts.BV(w, xc-yc)
+			}
+		}
 	case OpMul:
 		if x.IsConst() {
 			x, y = y, x
